@@ -97,17 +97,6 @@ def _compute_degree_iterative(expr: Expression) -> Optional[int]:
 
     Handles deep expression trees that would cause RecursionError.
     """
-    from optyx.core.matrices import QuadraticForm
-    from optyx.core.vectors import (
-        DotProduct,
-        LinearCombination,
-        VectorSum,
-        VectorPowerSum,
-        VectorUnarySum,
-        ElementwisePower,
-        ElementwiseUnary,
-    )
-
     # Stack: (expression, phase, left_result, right_result)
     # phase 0: first visit, phase 1: left done, phase 2: both done
     stack: list[tuple[Expression, int, Optional[int], Optional[int]]] = [
@@ -126,34 +115,10 @@ def _compute_degree_iterative(expr: Expression) -> Optional[int]:
             result_stack.append(1)
             continue
 
-        # Vector expressions - these have known degrees
-        if isinstance(node, LinearCombination):
-            result_stack.append(1)
-            continue
-        if isinstance(node, VectorSum):
-            result_stack.append(1)
-            continue
-        if isinstance(node, DotProduct):
-            result_stack.append(2)
-            continue
-        if isinstance(node, QuadraticForm):
-            result_stack.append(2)
-            continue
-        if isinstance(node, VectorPowerSum):
-            # sum(x ** k) has degree k
-            result_stack.append(int(node.power))
-            continue
-        if isinstance(node, VectorUnarySum):
-            # sum(sin(x)), sum(exp(x)) etc. are non-polynomial
-            result_stack.append(None)
-            continue
-        if isinstance(node, ElementwisePower):
-            # x ** k has degree k
-            result_stack.append(int(node.power))
-            continue
-        if isinstance(node, ElementwiseUnary):
-            # sin(x), exp(x) etc. are non-polynomial
-            result_stack.append(None)
+        # Vector / matrix expressions and any other node kind are not deeply
+        # nested: classify them exactly as the recursive algorithm does
+        if not isinstance(node, (BinaryOp, UnaryOp)):
+            result_stack.append(_compute_degree_impl(node))
             continue
 
         # Unary operations
@@ -294,21 +259,29 @@ def _compute_degree_impl(expr: Expression) -> Optional[int]:
             return max_deg
         return 1  # Default for unknown vector types
     if isinstance(expr, DotProduct):
-        # x · y could be quadratic if both are variables
-        # For now, return 2 (quadratic) as worst case
-        return 2
+        # x · y is quadratic for vectors of variables; for vectors of
+        # expressions the factor degrees add (None if an element is
+        # non-polynomial)
+        left_deg = _vector_degree(expr.left)
+        right_deg = _vector_degree(expr.right)
+        if left_deg is None or right_deg is None:
+            return None
+        return max(2, left_deg + right_deg)
     if isinstance(expr, QuadraticForm):
-        # xᵀAx is always quadratic
-        return 2
-    if isinstance(expr, VectorPowerSum):
-        # sum(x ** k) has degree k
-        return int(expr.power)
+        # xᵀAx is quadratic in the elements of x
+        vec_deg = _vector_degree(expr.vector)
+        if vec_deg is None:
+            return None
+        return max(2, 2 * vec_deg)
+    if isinstance(expr, (VectorPowerSum, ElementwisePower)):
+        # sum(x ** k) / x ** k has degree k for non-negative integer k only
+        power = float(expr.power)
+        if not power.is_integer() or power < 0:
+            return None
+        return int(power)
     if isinstance(expr, VectorUnarySum):
         # sum(sin(x)), sum(exp(x)) etc. are non-polynomial
         return None
-    if isinstance(expr, ElementwisePower):
-        # x ** k has degree k
-        return int(expr.power)
     if isinstance(expr, ElementwiseUnary):
         # sin(x), exp(x) etc. are non-polynomial
         return None
@@ -371,6 +344,21 @@ def _compute_degree_impl(expr: Expression) -> Optional[int]:
         return None
 
     # Unknown node type
+    return None
+
+
+def _vector_degree(vector: object) -> Optional[int]:
+    """Maximum element degree of a VectorVariable / VectorExpression operand."""
+    if hasattr(vector, "_variables"):
+        return 1
+    if hasattr(vector, "_expressions"):
+        max_deg = 0
+        for sub_expr in vector._expressions:  # type: ignore[attr-defined]
+            d = _compute_degree_impl(sub_expr)
+            if d is None:
+                return None
+            max_deg = max(max_deg, d)
+        return max_deg
     return None
 
 
